@@ -7,7 +7,9 @@ use std::time::Duration;
 
 use serde_json::{json, Value};
 
+use crate::transport::*;
 use crate::util::*;
+use std::sync::{Arc, Mutex};
 
 type Rb = attohttpc::RequestBuilder;
 type Pr = attohttpc::PreparedRequest<attohttpc::body::Empty>;
@@ -31,8 +33,10 @@ fn proj(s: &attohttpc::verif::SettingsSnapshot) -> Value {
 }
 
 fn hdrs(h: &attohttpc::header::HeaderMap) -> Value {
+    // (the Host field is written by send() for the hop at hand; it is not one of the caller's settings)
     json!(h
         .iter()
+        .filter(|(k, _)| k.as_str() != "host")
         .map(|(k, v)| {
             let val = String::from_utf8_lossy(v.as_bytes()).to_string();
             let val = if k.as_str() == "user-agent" && val.starts_with("attohttpc/") { "default-ua".to_string() } else { val };
@@ -80,6 +84,7 @@ pub fn run(sc: &Value) -> Vec<String> {
     for op in ga(sc, "ops") {
         let o = |i: usize| op[i].as_str().unwrap().to_string();
         let kind = o(0);
+        let mut wire = json!({"hops":0,"res":"-","hdrs":[]});
         let r = catch_unwind(AssertUnwindSafe(|| {
             match kind.as_str() {
                 "news" => {
@@ -118,6 +123,43 @@ pub fn run(sc: &Value) -> Vec<String> {
                     let b = builders.remove(&o(1)).unwrap();
                     prepared.insert(format!("P{}", o(1)), b.prepare());
                 }
+                "send" => {
+                    // a peer that always redirects and sends 12 header fields: the number of requests and the outcome
+                    // show the request's own max_redirections / follow_redirects / max_headers at work
+                    let mut world = World::new(vec![], vec![]);
+                    world.trace_conn = None;
+                    world.responder = Some(Box::new(|_ci, c| {
+                        if c.script.wire.is_empty() && !c.written.is_empty() {
+                            let mut r = b"HTTP/1.1 302 Found\r\nLocation: /again\r\nContent-Length: 0\r\n".to_vec();
+                            for i in 0..10 {
+                                r.extend_from_slice(format!("x-h-{}: v\r\n", i).as_bytes());
+                            }
+                            r.extend_from_slice(b"\r\n");
+                            Some(Reply { bytes: r, close: true })
+                        } else {
+                            None
+                        }
+                    }));
+                    let world: Shared = Arc::new(Mutex::new(world));
+                    install_dialer(&world);
+                    let p = prepared.get_mut(&o(1)).unwrap();
+                    let res = match p.send() {
+                        Ok(_) => "ok".to_string(),
+                        Err(e) => crate::exchange::err_kind(&e),
+                    };
+                    uninstall_dialer();
+                    let w = world.lock().unwrap();
+                    let hops = w.conns.iter().filter(|c| c.dial.is_some()).count();
+                    let first = w.conns.first().map(|c| crate::sendloop::parse_request(&c.written));
+                    let hdrs: Vec<Value> = first
+                        .map(|pr| pr.headers.iter().filter(|h| h.0 != "host").map(|h| {
+                            let v = String::from_utf8_lossy(&h.1).to_string();
+                            let v = if h.0 == "user-agent" && v.starts_with("attohttpc/") { "default-ua".to_string() } else { v };
+                            json!([h.0, v])
+                        }).collect())
+                        .unwrap_or_default();
+                    wire = json!({"hops":hops,"res":res,"hdrs":hdrs});
+                }
                 _ => {}
             }
         }));
@@ -136,7 +178,7 @@ pub fn run(sc: &Value) -> Vec<String> {
             snap.insert(k.clone(), json!({"f":proj(&sn),"h":hdrs(p.headers()),"cell":sn.cell,"refs":sn.cell_refs}));
         }
         let _ = FIELDS;
-        out.push(json!({"ev":"op","op":op,"snap":snap,"panic":r.is_err()}).to_string());
+        out.push(json!({"ev":"op","op":op,"snap":snap,"panic":r.is_err(),"wire":wire}).to_string());
     }
     out
 }
